@@ -12,18 +12,23 @@ Definition lval_eqb (a b : lval) : bool :=
   | _, _ => false
   end.
 
+(* a value produced by a replacement table or function: nil/false (keep the match), a string
+   or number (already in string form), or anything else (table, true, function, userdata:
+   "invalid replacement value") *)
+Inductive rval := RNone | RSome (b : bytes) | RBad.
+
 (* third argument of string.gsub.
    RStr: a string (or a number already converted to its string form);
-   RTab: association list key -> value, value None = nil/false (absent keys are nil);
-   RFn : the k-th call (0-based) returns the k-th element (None = nil/false; beyond the list: nil). *)
+   RTab: association list key -> value (absent keys are nil);
+   RFn : the k-th call (0-based) returns the k-th element (beyond the list: nil). *)
 Inductive repl :=
 | RStr (r : bytes)
-| RTab (t : list (lval * option bytes))
-| RFn (rets : list (option bytes)).
+| RTab (t : list (lval * rval))
+| RFn (rets : list rval).
 
-Fixpoint tab_get (t : list (lval * option bytes)) (k : lval) : option bytes :=
+Fixpoint tab_get (t : list (lval * rval)) (k : lval) : rval :=
   match t with
-  | [] => None
+  | [] => RNone
   | (k', v) :: r => if lval_eqb k' k then v else tab_get r k
   end.
 
